@@ -115,6 +115,22 @@ def main():
     a = ap.parse_args()
     if a.cmd == 'confirm':
         sys.exit(confirm(a.a[0], a.a[1], a.a[2]))
+    if a.cmd == 'all':
+        # re-verify every stored seeded change against its own property's check (and print a table)
+        rc = 0
+        names = sorted(os.listdir(os.path.join(VERIF, 'seeded')))
+        for name in names:
+            mp = os.path.join(VERIF, 'seeded', name, 'meta.json')
+            if not os.path.exists(mp):
+                continue
+            meta = json.load(open(mp))
+            props = a.props.split(',') if a.props else [meta['breaks_property']]
+            run(name, a.tier, props, [int(x) for x in a.seeds.split(',')])
+            meta = json.load(open(mp))
+            if not meta.get('caught_by_own_property_check'):
+                rc = 1
+                print('MISSED:', name)
+        sys.exit(rc)
     if a.cmd == 'run':
         name = a.a[0]
         meta = json.load(open(os.path.join(VERIF, 'seeded', name, 'meta.json')))
